@@ -120,9 +120,57 @@ def bounded(tier, seed):
     out.append(run_cases("eight-stem-groups", big, O.c16_check, knotted,
                          "one connected group of 8 (thorough: 9) crossing stems - star and path conflict graphs - against the independent enumeration (level <= degree bound)",
                          f"{len(big)} structures", sig=repr, relates="all_dot_brackets"))
+    # the other two observation points: Mapping2D3D.all_dot_brackets (through annotator.extract_secondary_structure) and the
+    # annotator command line tool with --all-dot-brackets, on corpus structures
+    import os
+    from gen import structures as G
+    files = [p for p in G.corpus(tier) if os.path.getsize(p) < (300000 if tier == "quick" else 3000000)]
+    cases = [(p, fg) for p in files for fg in (False, True)]
+    out.append(run_cases("mapping-and-tool", cases, mapping_check, lambda c: True,
+                         "corpus structures: the texts of Mapping2D3D.all_dot_brackets (extract_secondary_structure(all_dot_brackets=True)), joined over strands, "
+                         "are without repetition exactly the greedy-stable assignments of the structure's BPSEQ (independent enumeration when the conflicted stems "
+                         "are <= 10), carry its sequence, and `annotator -a` prints exactly these texts",
+                         f"{len(cases)} (structure, find_gaps) cases", sig=lambda c: f"{os.path.basename(c[0])}:{c[1]}", relates="all_dot_brackets|Mapping2D3D"))
     return out
 
 
+def mapping_check(case):
+    import contextlib, io, sys
+    from gen import structures as G
+    from rnapolis import annotator
+    path, find_gaps = case[0], bool(case[1])
+    s = G.load(path)
+    s2d, dbs = annotator.extract_secondary_structure(s, None, find_gaps, True)
+    rows = [ln.split() for ln in s2d.bpseq.splitlines() if ln.strip()]
+    pairing, seq = tuple(int(r[2]) for r in rows), "".join(r[1] for r in rows)
+    joined = ["".join(t.splitlines()[2::3]) for t in dbs]
+    errs = []
+    if any("".join(t.splitlines()[1::3]) != seq for t in dbs):
+        errs.append("a member does not carry the BPSEQ's sequence")
+    if len(set(joined)) != len(joined):
+        errs.append("Mapping2D3D.all_dot_brackets repeats a member")
+    stems, adj = O.stem_graph(pairing)
+    if sum(1 for a in adj if adj[a]) <= 10:
+        want = O.c16_expected(pairing)
+        if set(joined) != want:
+            errs.append(f"Mapping2D3D.all_dot_brackets {sorted(set(joined))[:3]}.. ({len(set(joined))}) != greedy-stable set {sorted(want)[:3]}.. ({len(want)})")
+    if not any(adj.values()) and (len(joined) != 1 or any(c not in "()." for c in joined[0])):
+        errs.append("pseudoknot-free structure must give one round-bracket text")
+    buf, old = io.StringIO(), sys.argv
+    try:
+        sys.argv = ["annotator", path, "-a"] + (["-f"] if find_gaps else [])
+        with contextlib.redirect_stdout(buf):
+            annotator.main()
+    finally:
+        sys.argv = old
+    if buf.getvalue() != "".join(t + "\n" for t in dbs):
+        errs.append("`annotator -a` does not print exactly the texts of all_dot_brackets")
+    return errs
+
+
 def replay(inp):
+    if inp.get("check") == "mapping-and-tool":
+        errs = mapping_check(inp["case"])
+        return {"fails": bool(errs), "errors": errs[:3]}
     errs = O.c16_check(tuple(inp["case"]))
     return {"fails": bool(errs), "errors": errs[:3]}
